@@ -321,3 +321,61 @@ Proof.
   - vm_compute; reflexivity.
   - reflexivity.
 Qed.
+
+(* ---------------------------------------------------------------------------------------------
+   entry points: the caller's x0 is not read by the closed form -- and it must not be: the same formula expanded at
+   another point is NOT the posterior mean
+   --------------------------------------------------------------------------------------------- *)
+Theorem map_entry_ignores_x0 fixed m n A b pm x0arg disp ce cx :
+  map_entry fixed m n A b pm x0arg disp ce cx = map_entry fixed m n A b pm None true ce cx.
+Proof. reflexivity. Qed.
+
+Theorem expansion_point_matters :
+  exists m n A b pm v Ce Cx x y,
+    map_core m n A b pm (NMat Ce) (NMat Cx) = Val x /\ map_core m n A b v (NMat Ce) (NMat Cx) = Val y /\ v <> pm /\ x <> y.
+Proof.
+  exists 2%nat, 3%nat, wA, wb, (qvec [1; 0; -1]%Q), (qvec [0; 2; 1]%Q), eCe, eCx.
+  eexists. eexists. split; [vm_compute; reflexivity|]. split; [vm_compute; reflexivity|]. split; qcl_neq.
+Qed.
+
+(* ---------------------------------------------------------------------------------------------
+   ML: the specification value (weighted least squares with the checked inverse of the noise covariance) is a stationary
+   point and a maximiser of the likelihood
+   --------------------------------------------------------------------------------------------- *)
+Definition lik_q (A Pe : list (list Qc)) (b x : list Qc) : Qc :=
+  let r := qvsub b (qmatvec A x) in qdot r (qmatvec Pe r).
+
+Theorem ml_exact_maximiser m n A b ce x :
+  ml_exact m n A b ce = Some x ->
+  exists Pe, qinv (dense_of true m ce) = Some Pe /\
+   (wf_mat n A -> length A = m -> length b = m -> length (dense_of true m ce) = m -> q_sym m Pe -> length x = n ->
+    qmattvec n A (qmatvec Pe (qvsub b (qmatvec A x))) = qvzero n /\
+    ((forall v, length v = m -> 0 <= qdot v (qmatvec Pe v)) ->
+     forall y, length y = n -> lik_q A Pe b x <= lik_q A Pe b y)).
+Proof.
+  unfold ml_exact. destruct (qinv (dense_of true m ce)) as [Pe|] eqn:IPe; [|discriminate].
+  intros HS. apply qsolve_sound in HS as [HS _]. exists Pe. split; [reflexivity|].
+  intros HA HAm Hb HCe HSym Hx.
+  destruct (qinv_shape _ _ IPe) as [WPe SPe]. rewrite HCe in *.
+  rewrite (q_atpa_matvec m n A Pe x HA HAm WPe SPe HSym Hx) in HS.
+  assert (L1 : length (qmatvec A x) = m) by (rewrite q_matvec_length; exact HAm).
+  assert (G : qmattvec n A (qmatvec Pe (qvsub b (qmatvec A x))) = qvzero n).
+  { rewrite (q_matvec_vsub Pe b (qmatvec A x) m WPe Hb L1).
+    rewrite (q_mattvec_vsub n A _ _ HA) by (rewrite !q_matvec_length; reflexivity).
+    rewrite HS. rewrite q_vsub_self. rewrite q_mattvec_length by exact HA. reflexivity. }
+  split; [exact G|].
+  intros PSD y Hy. unfold lik_q.
+  set (h := qvsub y x). set (r := qvsub b (qmatvec A x)).
+  assert (Hh : length h = n) by (unfold h; rewrite q_vsub_length; congruence).
+  assert (Ey : y = qvadd x h) by (unfold h; symmetry; apply q_vadd_vsub_cancel; congruence).
+  assert (Hr : length r = m) by (unfold r; rewrite q_vsub_length; congruence).
+  assert (LAh : length (qmatvec A h) = m) by (rewrite q_matvec_length; exact HAm).
+  assert (Er : qvsub b (qmatvec A y) = qvsub r (qmatvec A h)).
+  { rewrite Ey. rewrite (q_matvec_vadd A x h n HA Hx Hh). unfold r. apply q_vsub_vadd_distr; congruence. }
+  rewrite Er. rewrite (q_quad_vsub m Pe r (qmatvec A h) WPe SPe HSym Hr LAh).
+  rewrite (q_adjoint n A h (qmatvec Pe r) HA Hh). fold r in G. rewrite G. rewrite q_dot_vzero_r.
+  pose proof (PSD (qmatvec A h) LAh) as P1.
+  set (q0 := qdot r (qmatvec Pe r)) in *.
+  replace (q0 - (1 + 1) * 0 + qdot (qmatvec A h) (qmatvec Pe (qmatvec A h))) with (q0 + qdot (qmatvec A h) (qmatvec Pe (qmatvec A h))) by ring.
+  replace q0 with (q0 + 0) at 1 by ring. apply Qcplus_le_compat; [apply Qcle_refl | exact P1].
+Qed.
